@@ -237,3 +237,37 @@ Definition globals_written_after_init : list (string * bool) :=
 (* assignments through a Prog in machine.go, oplogic.go, disasm.go and Execute/printXStats of api.go: none
    ("executing a Prog does not alter it", C16; "one Prog may be executed concurrently", C12) *)
 Definition prog_writes_in_execution : list (string * string) := [].
+
+(* the synchronisation skeleton of the library (channel operations, goroutine starts, deferred calls, mutex operations, per
+   function, in source order): Model/Proto.v is the transition system of these operations -- reader = ParseFile/func1,
+   parser side = ParseFile/func2 + nextToken, lexer = newLexer's goroutine (run, emit, emitError, next), line table mutex =
+   add / lineColAt, caller = ParseFile *)
+Definition sync_skeleton : list (string * string) :=
+  [("Parse", "send c");
+   ("Parse", "close c");
+   ("ParseFile", "go");
+   ("ParseFile/func1", "defer f.Close");
+   ("ParseFile/func1", "send rerr");
+   ("ParseFile/func1", "send rerr");
+   ("ParseFile/func1", "select");
+   ("ParseFile/func1", "send inpc");
+   ("ParseFile/func1", "recv done");
+   ("ParseFile/func1", "send rerr");
+   ("ParseFile/func1", "close inpc");
+   ("ParseFile", "go");
+   ("ParseFile/func2", "close done");
+   ("ParseFile/func2", "send perr");
+   ("ParseFile", "recv rerr");
+   ("ParseFile", "recv perr");
+   ("newLexer", "go");
+   ("nextToken", "recv l.tokens");
+   ("run", "close l.tokens");
+   ("emit", "send l.tokens");
+   ("emitError", "send l.tokens");
+   ("next", "recv l.inputs");
+   ("add", "lock lc.mu");
+   ("add", "defer lc.mu.Unlock");
+   ("lineColAt", "lock lc.mu");
+   ("lineColAt", "defer lc.mu.Unlock");
+   ("blockStmt", "defer p.endBlock");
+   ("blockStmt", "defer p.endScope")].
